@@ -15,7 +15,8 @@ import fcntl
 
 REPO = os.environ.get("FQE_REPO", "/repo")
 PY = "/venv/bin/python"
-SCRATCH_ROOT = os.path.join(os.environ.get("TMPDIR", "/tmp"), "fqeverif-scratch")
+SCRATCH_ROOT = os.path.join(os.environ.get("TMPDIR", "/tmp"), "fqeverif-scratch" + (
+    "" if REPO == "/repo" else "-" + hashlib.sha1(REPO.encode()).hexdigest()[:8]))
 
 EXCLUDE_DIRS = {".git", "tests", "build", "__pycache__", "docs", "rtd_docs", "profiling",
                 "examples", ".pytest_cache", "dev"}
